@@ -125,8 +125,13 @@ func (C06) Gen(rt *rapid.T, tier string) any {
 	}
 	if chance(rt, 15, "rpmwal") && p.free("var/lib/rpm/rpmdb.sqlite") && p.free("var/lib/rpm/Packages") {
 		// the snapshot of a live machine: a WAL-mode rpmdb.sqlite together with its -wal file
-		p.add(FileSpec{Path: "var/lib/rpm/rpmdb.sqlite", Src: Src{Gen: "rpm-wal-db"}})
-		p.add(FileSpec{Path: "var/lib/rpm/rpmdb.sqlite-wal", Src: Src{Gen: "rpm-wal-wal"}})
+		if rapid.Bool().Draw(rt, "rpmwal.live") {
+			p.add(FileSpec{Path: "var/lib/rpm/rpmdb.sqlite", Src: Src{Gen: "rpm-wal-db"}})
+			p.add(FileSpec{Path: "var/lib/rpm/rpmdb.sqlite-wal", Src: Src{Gen: "rpm-wal-wal"}})
+		} else {
+			// cleanly shut down WAL-mode database (what RHEL 9 / Fedora ship) with corrupt header blobs
+			p.add(FileSpec{Path: "var/lib/rpm/rpmdb.sqlite", Src: Src{Gen: "rpm-wal-checkpointed"}})
+		}
 		p.dirs["var/lib/rpm"] = true
 	}
 	n := 2 + pick(rt, 6, "nfiles")
